@@ -243,13 +243,6 @@ class Check:
                     if not close(got[k], val, 1e3):
                         viol.append(v('enu-ned', step, f'ENU {k}={got[k]:.9g} is not the NED twin\'s component {val:.9g}'))
                         return False
-            if abs(lat) == 90:
-                # at a pole H, F and Z are well defined: they must join what is computed a micro-degree away
-                near = reference(m['date'], math.copysign(90.0 - 1e-6, lat), lon, h, m['frame'])
-                for k in ('H', 'F', 'Z'):
-                    if not abs(got[k] - near[k]) <= 1e-4 * max(1e3, abs(near[k])):
-                        viol.append(v('pole-discontinuity', step, f'{k} at latitude {lat} is {got[k]:.9g} but {near[k]:.9g} one micro-degree away'))
-                        return False
             if abs(lon) == 180:
                 other = reference(m['date'], lat, -lon, h, m['frame'])
                 for k in ('X', 'Y', 'Z'):
